@@ -37,6 +37,9 @@ type PipeOp struct {
 	Stop  []int     `json:"stop"`
 	Pan   int       `json:"pan"`
 	Pv    string    `json:"pv,omitempty"`
+	// Reuse: the building call passes the handler slice the application kept from the previous
+	// building call (same handlers, same slice object), like a shared initializer list
+	Reuse bool `json:"reuse,omitempty"`
 }
 
 type PipeCase struct {
@@ -349,6 +352,8 @@ func runPipeCase(c *PipeCase) *PipeResult {
 	ops := append([]PipeOp(nil), c.Ops...)
 	closed := false
 	nfire := 0
+	var keptHs []netty.Handler // the slice the application retained from its last building call
+	var keptRefs []PipeRef     // ... and what it holds, as references to existing instances
 	genRandom := func() PipeOp {
 		ninst := len(w.inst)
 		size := w.pl.Size()
@@ -370,6 +375,14 @@ func runPipeCase(c *PipeCase) *PipeResult {
 		}
 		if c.Panics && !pcancelled && !closed && rnd.Intn(12) == 0 {
 			return PipeOp{Op: "PCancel"}
+		}
+		if r < 3 && len(keptRefs) >= 2 && size < 14 && rnd.Intn(4) == 0 {
+			// the application uses its retained handler list again
+			op := PipeOp{Op: []string{"AddFirst", "AddLast", "AddHandler"}[rnd.Intn(3)], Refs: keptRefs, Reuse: true}
+			if op.Op == "AddHandler" {
+				op.Pos = rnd.Intn(size+2) - 1
+			}
+			return op
 		}
 		switch {
 		case r < 3 && (ninst < c.MaxInst || ninst > 0):
@@ -475,10 +488,21 @@ func runPipeCase(c *PipeCase) *PipeResult {
 				res.Diverged++
 				continue
 			}
+			if op.Reuse && keptHs != nil && len(keptHs) == len(hs) {
+				hs = keptHs
+			} else {
+				keptHs = hs
+				keptRefs = nil
+				for _, h := range hs {
+					hi := h.(interface{ ident() int }).ident()
+					keptRefs = append(keptRefs, PipeRef{New: false, T: w.types[hi-1], I: hi})
+				}
+			}
 			func() {
 				defer func() {
 					if r := recover(); r != nil {
 						ev.Rejected = true
+						keptHs, keptRefs = nil, nil
 						// a rejected call must not have registered its new instances
 						n := 0
 						for _, rf := range op.Refs {
